@@ -136,3 +136,16 @@ Definition model_last_admitted (cfg : config) (rq : change_req) (req : list outp
       end
   | _ => None
   end.
+
+(* ---- any build entry point (build, build_tx, build_tx_unsafe) after any balancing entry point ----
+   [returned]: some entry point handed out a body / transaction; then every output of it, its collateral return, the
+   size build() measures and the bytes of the returned transaction are judged.  An entry point that stores a collateral
+   return it computed itself is judged like any other (only the raw setter called by the USER is the known finding). *)
+Definition judge_returned (cfg : config) (returned : bool) (outs : list oobs) (col_ret : option oobs)
+    (full : option N) (len : N) : verdict :=
+  if negb returned then Holds
+  else if forallb (obs_ok cfg) outs
+          && (match col_ret with Some o => obs_ok cfg o | None => true end)
+          && (match full with Some f => f <=? c_max_tx_size cfg | None => true end)
+          && (len <=? c_max_tx_size cfg)
+       then Holds else FailsUnknown.
